@@ -185,6 +185,41 @@ type System struct {
 	curRecv     Action
 	baseG       int
 	needOffsets bool
+	ucSnaps     []ucSnap
+}
+
+// announceOk: every local feature announces (detailed discovery information) exactly the operations it was configured with
+func (s *System) announceOk() bool {
+	for _, ent := range s.dev.Entities() {
+		for _, f := range ent.Features() {
+			info := f.Information()
+			if info == nil || info.Description == nil {
+				return false
+			}
+			ann := map[model.FunctionType][2]bool{}
+			for _, sf := range info.Description.SupportedFunction {
+				if sf.Function == nil || sf.PossibleOperations == nil {
+					return false
+				}
+				ann[*sf.Function] = [2]bool{sf.PossibleOperations.Read != nil, sf.PossibleOperations.Write != nil}
+			}
+			ops := f.Operations()
+			if len(ann) != len(ops) {
+				return false
+			}
+			for fn, op := range ops {
+				if a, ok := ann[fn]; !ok || a[0] != op.Read() || a[1] != op.Write() {
+					return false
+				}
+			}
+		}
+	}
+	return true
+}
+
+type ucSnap struct {
+	obj  *model.NodeManagementUseCaseDataType
+	json string
 }
 
 var sysCounter int
@@ -241,6 +276,15 @@ func NewSystem(topo *Topo) *System {
 		}
 		s.lfeat[n] = f
 		s.lname[fi.Ent+"/"+fmt.Sprint(uint(*f.Address().Feature))] = n
+	}
+	// besides the features of the specification's topology there is one the specification does not speak about: a server
+	// feature with a write-only and a read-only function; it is only used to compare what the device announces with what
+	// was configured (announceOk)
+	if ent, ok := s.lents["2"]; ok {
+		x := ent.GetOrAddFeature(model.FeatureTypeTypeMeasurement, model.RoleTypeServer)
+		x.AddFunctionType(model.FunctionTypeMeasurementListData, false, true)
+		x.AddFunctionType(model.FunctionTypeMeasurementDescriptionListData, true, false)
+		x.AddFunctionType(model.FunctionTypeMeasurementConstraintsListData, true, true)
 	}
 	for _, e := range el {
 		s.dev.AddEntity(s.lents[e])
@@ -332,6 +376,12 @@ func (s *System) remoteName(p *Peer, a *model.FeatureAddressType) string {
 		}
 	}
 	if a.Device == nil {
+		// before the discovery reply the stack does not know the peer's device address: its addresses have no device part
+		if p != nil {
+			if rd := s.dev.RemoteDeviceForSki(p.ski); rd != nil && rd.Address() == nil {
+				return n
+			}
+		}
 		return n + "@nodev"
 	}
 	if p == nil || string(*a.Device) != p.devAddr {
